@@ -363,4 +363,299 @@ theorem resolveParts_map (c : Ctx) (inode : Option (List String)) (parts : List 
       simp [a, a', Except.map]
 
 end
+/-! ## Builder.parseRelation / parseIndirect under a renaming of the name tokens -/
+
+/-- keywords of the clause grammar -/
+def TokKw : List String := Keywords ++ ["of", "root"]
+
+/-- a renaming of tokens that respects the clause grammar: fixes keywords, maps nothing else onto them,
+keeps reserved / non-reserved and identifier-ness -/
+structure RespTok (f : String → String) : Prop where
+  kw : ∀ k ∈ TokKw, ∀ s, f s = k ↔ s = k
+  res : ∀ s, f s ∈ reserved ↔ s ∈ reserved
+  ident : ∀ s, isIdentPub (f s) = isIdentPub s
+
+theorem RespTok.resp {f : String → String} (h : RespTok f) : Resp f :=
+  fun k hk s => h.kw k (by simp [TokKw, hk]) s
+
+def mapPR (f : String → String) (x : List String × List String) : List String × List String :=
+  (x.1.map f, x.2.map f)
+
+section
+variable {f : String → String} (hf : RespTok f)
+include hf
+
+theorem fix_tok (k : String) (hk : k ∈ TokKw) : f k = k := (hf.kw k hk k).2 rfl
+
+theorem optName_map (toks : List String) :
+    optName (toks.map f) = (optName toks).map (fun x => (f x.1, x.2.map f)) := by
+  have hempty : f "" = "" := fix_tok hf "" (by simp [TokKw, Keywords])
+  cases toks with
+  | nil => simp [optName, Except.map, hempty]
+  | cons n rest =>
+    simp only [List.map_cons, optName]
+    by_cases h1 : n ∈ reserved
+    · have h1' : f n ∈ reserved := (hf.res n).2 h1
+      simp [h1, h1', Except.map, hempty]
+    · have h1' : ¬ f n ∈ reserved := fun e => h1 ((hf.res n).1 e)
+      simp only [h1, h1', if_false, hf.ident]
+      by_cases h2 : isIdentPub n = true
+      · simp [h2, Except.map]
+      · simp [h2, Except.map]
+
+theorem contains_map (k : String) (hk : k ∈ TokKw) (l : List String) :
+    (l.map f).contains k = l.contains k := by
+  induction l with
+  | nil => rfl
+  | cons s t ih =>
+    simp only [List.map_cons, List.contains_cons, ih]
+    have := hf.kw k hk s
+    by_cases h : s = k
+    · subst h; simp [fix_tok hf s hk]
+    · have h' : ¬ f s = k := fun e => h (this.1 e)
+      have e1 : (k == f s) = false := by rw [beq_eq_false_iff_ne]; exact fun e => h' e.symm
+      have e2 : (k == s) = false := by rw [beq_eq_false_iff_ne]; exact fun e => h e.symm
+      rw [e1, e2]
+
+theorem hasInner_map (k : String) (hk : k ∈ TokKw) (l : List String) :
+    hasInner k (l.map f) = hasInner k l := by
+  cases l with
+  | nil => rfl
+  | cons s t =>
+    simp only [List.map_cons, hasInner]
+    rw [← List.map_dropLast, contains_map hf k hk]
+
+theorem parseRelation_map : ∀ (fuel : Nat) (toks : List String) (fn : String),
+    parseRelation fuel (toks.map f) (f fn) = (parseRelation fuel toks fn).map (mapPR f) := by
+  have hof : f "of" = "of" := fix_tok hf "of" (by simp [TokKw])
+  have hroot : f "root" = "root" := fix_tok hf "root" (by simp [TokKw])
+  have hme : f "me" = "me" := fix_tok hf "me" (by simp [TokKw, Keywords])
+  have hmain : f "main" = "main" := fix_tok hf "main" (by simp [TokKw, Keywords])
+  have hframer : f "framer" = "framer" := fix_tok hf "framer" (by simp [TokKw, Keywords])
+  have hframe : f "frame" = "frame" := fix_tok hf "frame" (by simp [TokKw, Keywords])
+  have hactor : f "actor" = "actor" := fix_tok hf "actor" (by simp [TokKw, Keywords])
+  have hempty : f "" = "" := fix_tok hf "" (by simp [TokKw, Keywords])
+  have iff_ (k : String) (hk : k ∈ TokKw) (s : String) : (f s = k) ↔ (s = k) := hf.kw k hk s
+  intro fuel
+  induction fuel with
+  | zero => intro toks fn; rfl
+  | succ fuel ih =>
+    intro toks fn
+    cases toks with
+    | nil => rfl
+    | cons t rest0 =>
+      simp only [List.map_cons, parseRelation]
+      by_cases h0 : t = "of"
+      · subst h0
+        simp only [hof, if_true]
+        cases rest0 with
+        | nil => rfl
+        | cons rel rest =>
+          simp only [List.map_cons]
+          by_cases r1 : rel = "root"
+          · subst r1; simp [hroot, Except.map, mapPR]
+          · have r1' : ¬ f rel = "root" := fun e => r1 ((iff_ "root" (by simp [TokKw]) rel).1 e)
+            simp only [r1, r1', if_false]
+            by_cases r2 : rel = "me"
+            · subst r2; simp [hme, Except.map, mapPR]
+            · have r2' : ¬ f rel = "me" := fun e => r2 ((iff_ "me" (by simp [TokKw, Keywords]) rel).1 e)
+              simp only [r2, r2', if_false]
+              by_cases r3 : rel = "framer"
+              · subst r3
+                simp only [hframer, if_true, bind, Except.bind, optName_map hf]
+                cases hn : optName rest with
+                | error e => simp [Except.map]
+                | ok nr =>
+                  simp only [Except.map, pure, Except.pure, mapPR]
+                  have e1 : (f nr.1 = "") ↔ (nr.1 = "") := iff_ "" (by simp [TokKw, Keywords]) nr.1
+                  have e2 : (f fn = "") ↔ (fn = "") := iff_ "" (by simp [TokKw, Keywords]) fn
+                  by_cases a : nr.1 = ""
+                  · have a' : f nr.1 = "" := e1.2 a
+                    by_cases b : fn = ""
+                    · have b' : f fn = "" := e2.2 b
+                      simp [a, b, hframer, hme, hempty]
+                    · have b' : ¬ f fn = "" := fun e => b (e2.1 e)
+                      simp [a, b, b', hframer, hempty]
+                  · have a' : ¬ f nr.1 = "" := fun e => a (e1.1 e)
+                    simp [a, a', hframer]
+              · have r3' : ¬ f rel = "framer" := fun e => r3 ((iff_ "framer" (by simp [TokKw, Keywords]) rel).1 e)
+                simp only [r3, r3', if_false]
+                by_cases r4 : rel = "frame"
+                · subst r4
+                  simp only [hframe, if_true, bind, Except.bind, optName_map hf]
+                  cases hn : optName rest with
+                  | error e => simp [Except.map]
+                  | ok nr =>
+                    simp only [Except.map]
+                    have e1 : (f nr.1 = "") ↔ (nr.1 = "") := iff_ "" (by simp [TokKw, Keywords]) nr.1
+                    have e3 : (f nr.1 = "main") ↔ (nr.1 = "main") := iff_ "main" (by simp [TokKw, Keywords]) nr.1
+                    -- the name and the default framer name commute with f
+                    have hname : (if f nr.1 = "" then "me" else f nr.1) = f (if nr.1 = "" then "me" else nr.1) := by
+                      by_cases a : nr.1 = ""
+                      · simp [a, e1.2 a, hme, hempty]
+                      · have a' : ¬ f nr.1 = "" := fun e => a (e1.1 e)
+                        simp [a, a']
+                    rw [hname]
+                    generalize hnm : (if nr.1 = "" then "me" else nr.1) = name
+                    have e4 : (f name = "main") ↔ (name = "main") := iff_ "main" (by simp [TokKw, Keywords]) name
+                    have hfn : (if f name = "main" then "main" else "") = f (if name = "main" then "main" else "") := by
+                      by_cases a : name = "main"
+                      · simp [a, hmain]
+                      · have a' : ¬ f name = "main" := fun e => a (e4.1 e)
+                        simp [a, a', hempty]
+                    rw [hfn, ih]
+                    cases hr : parseRelation fuel nr.2 (if name = "main" then "main" else "") with
+                    | error e => simp [Except.map]
+                    | ok fr =>
+                      simp only [Except.map, mapPR, List.map_eq_nil_iff, ne_eq,
+                        hasInner_map hf "frame" (by simp [TokKw, Keywords]),
+                        hasInner_map hf "actor" (by simp [TokKw, Keywords])]
+                      by_cases c1 : ¬ fr.1 = [] ∧ (hasInner "frame" fr.1 = true ∨ hasInner "actor" fr.1 = true)
+                      · simp [c1]
+                      · simp only [c1, if_false]
+                        by_cases c2 : fr.1 = []
+                        · simp only [c2, not_true_eq_false, if_false, pure, Except.pure]
+                          have e5 : (f (if name = "main" then "main" else "") = "") ↔
+                              ((if name = "main" then "main" else "") = "") :=
+                            iff_ "" (by simp [TokKw, Keywords]) _
+                          by_cases a : name = "main"
+                          · simp [a, hmain, hframer, hframe]
+                          · simp [a, hempty, hme, hframer, hframe]
+                        · simp [c2, pure, Except.pure, hframe]
+                · have r4' : ¬ f rel = "frame" := fun e => r4 ((iff_ "frame" (by simp [TokKw, Keywords]) rel).1 e)
+                  simp only [r4, r4', if_false]
+                  by_cases r5 : rel = "actor"
+                  · subst r5
+                    simp only [hactor, if_true, bind, Except.bind, optName_map hf]
+                    cases hn : optName rest with
+                    | error e => simp [Except.map]
+                    | ok nr =>
+                      simp only [Except.map]
+                      have e1 : (f nr.1 = "") ↔ (nr.1 = "") := iff_ "" (by simp [TokKw, Keywords]) nr.1
+                      have hname : (if f nr.1 = "" then "me" else f nr.1) = f (if nr.1 = "" then "me" else nr.1) := by
+                        by_cases a : nr.1 = ""
+                        · simp [a, e1.2 a, hme, hempty]
+                        · have a' : ¬ f nr.1 = "" := fun e => a (e1.1 e)
+                          simp [a, a']
+                      rw [hname]
+                      generalize hnm : (if nr.1 = "" then "me" else nr.1) = name
+                      have := ih nr.2 ""
+                      rw [hempty] at this
+                      rw [this]
+                      cases hr : parseRelation fuel nr.2 "" with
+                      | error e => simp [Except.map]
+                      | ok fr =>
+                        simp only [Except.map, mapPR, List.map_eq_nil_iff, ne_eq,
+                          hasInner_map hf "actor" (by simp [TokKw, Keywords])]
+                        by_cases c1 : ¬ fr.1 = [] ∧ hasInner "actor" fr.1 = true
+                        · simp [c1]
+                        · simp only [c1, if_false]
+                          by_cases c2 : fr.1 = []
+                          · simp [c2, pure, Except.pure, hme, hframer, hframe, hactor]
+                          · simp [c2, pure, Except.pure, hactor]
+                  · have r5' : ¬ f rel = "actor" := fun e => r5 ((iff_ "actor" (by simp [TokKw, Keywords]) rel).1 e)
+                    simp [r5, r5', Except.map]
+      · have h0' : ¬ f t = "of" := fun e => h0 ((iff_ "of" (by simp [TokKw]) t).1 e)
+        simp [h0, h0', Except.map, mapPR]
+
+theorem joinSegs_map (rel chunks : List String) (b : Bool) (hc : chunks.map f = chunks) :
+    parseIndirect.joinSegs (rel.map f) chunks b = (parseIndirect.joinSegs rel chunks b).map f := by
+  unfold parseIndirect.joinSegs
+  have ht : chunks.tail.map f = chunks.tail := by rw [List.map_tail, hc]
+  by_cases h : rel = []
+  · simp [h, hc]
+  · have h' : ¬ rel.map f = [] := by simpa using h
+    cases b <;> simp [h, h', hc, ht]
+
+theorem eq_me_map (rel : List String) : (rel.map f = ["me"]) ↔ (rel = ["me"]) := by
+  cases rel with
+  | nil => simp
+  | cons s t =>
+    cases t with
+    | nil => simp only [List.map_cons, List.map_nil, List.cons.injEq, and_true]; exact hf.kw "me" (by simp [TokKw, Keywords]) s
+    | cons u v => simp
+
+/-- **`Builder.parseIndirect` commutes with a renaming of the name tokens of the clause** (the path
+token itself is not touched by the renaming) -/
+theorem parseIndirect_map (node : Bool) (path : String) (rest : List String)
+    (hp : (path.splitOn ".").map f = path.splitOn ".") :
+    parseIndirect node (path :: rest.map f) = (parseIndirect node (path :: rest)).map (mapPR f) := by
+  have hempty : f "" = "" := fix_tok hf "" (by simp [TokKw, Keywords])
+  have hframer : f "framer" = "framer" := fix_tok hf "framer" (by simp [TokKw, Keywords])
+  have hframe : f "frame" = "frame" := fix_tok hf "frame" (by simp [TokKw, Keywords])
+  have hme : f "me" = "me" := fix_tok hf "me" (by simp [TokKw, Keywords])
+  have hmain : f "main" = "main" := fix_tok hf "main" (by simp [TokKw, Keywords])
+  have hrel := parseRelation_map hf (rest.length + 1) rest ""
+  rw [hempty] at hrel
+  simp only [parseIndirect, List.length_map]
+  by_cases h0 : path ∈ reserved
+  · simp [h0, Except.map]
+  · simp only [h0, if_false]
+    by_cases h1 : isDotPath node (path.splitOn ".") = true
+    · simp only [h1, if_true, bind, Except.bind, hrel]
+      cases hr : parseRelation (rest.length + 1) rest "" with
+      | error e => simp [Except.map]
+      | ok rr => simp [Except.map, pure, Except.pure, mapPR, joinSegs_map hf _ _ _ hp]
+    · simp only [h1, Bool.false_eq_true, if_false]
+      by_cases h2 : isRelPath node (path.splitOn ".") = true
+      · simp only [h2, if_true, bind, Except.bind, hrel]
+        cases hr : parseRelation (rest.length + 1) rest "" with
+        | error e => simp [Except.map]
+        | ok rr =>
+          simp only [Except.map, mapPR, List.map_eq_nil_iff, ne_eq,
+            hasInner_map hf "frame" (by simp [TokKw, Keywords]),
+            hasInner_map hf "actor" (by simp [TokKw, Keywords]), eq_me_map hf]
+          by_cases c1 : rr.1 = []
+          · simp only [c1, not_true_eq_false, if_false]
+            have fixj : ∀ kws : List String, kws.map f = kws →
+                (parseIndirect.joinSegs kws (path.splitOn ".") true).map f
+                  = parseIndirect.joinSegs kws (path.splitOn ".") true := by
+              intro kws hk
+              rw [← joinSegs_map hf kws _ true hp, hk]
+            have k1 : (["framer", "me", "frame", "me"] : List String).map f = ["framer", "me", "frame", "me"] := by
+              simp [hframer, hme, hframe]
+            have k2 : (["framer", "main"] : List String).map f = ["framer", "main"] := by simp [hframer, hmain]
+            have k3 : (["framer", "me"] : List String).map f = ["framer", "me"] := by simp [hframer, hme]
+            by_cases d1 : (path.splitOn ".").headD "" = "actor"
+            · simp only [d1, if_true]
+              by_cases d2 : (path.splitOn ".").length < 3
+              · simp [d2, Except.map]
+              · simp [d2, pure, Except.pure, Except.map, mapPR, fixj _ k1]
+            · simp only [d1, if_false]
+              by_cases d3 : (path.splitOn ".").headD "" = "frame"
+              · simp only [d3, if_true]
+                by_cases d2 : (path.splitOn ".").length < 3
+                · simp [d2, Except.map]
+                · simp only [d2, if_false, List.getD_eq_getElem?_getD]
+                  by_cases d4 : (path.splitOn ".")[1]?.getD "" = "main"
+                  · simp only [d4, if_true, pure, Except.pure, Except.map, mapPR, fixj _ k2]
+                  · simp only [d4, if_false, pure, Except.pure, Except.map, mapPR, fixj _ k3]
+              · simp only [d3, if_false, pure, Except.pure, Except.map, mapPR, hp]
+          · simp only [c1, not_false_eq_true, if_true]
+            split
+            · split
+              · rfl
+              · split
+                · rfl
+                · simp [pure, Except.pure, joinSegs_map hf _ _ _ hp]
+            · simp [pure, Except.pure, joinSegs_map hf _ _ _ hp]
+      · simp [h2, Except.map]
+
+end
+
+/-! ## the actor's name enters a resolved path as one run of segments -/
+
+def Ctx.withActor (c : Ctx) (a : List String) : Ctx := { c with actor := some a }
+
+theorem substActor_splice (c : Ctx) (l : List String) :
+    (∃ r, ∀ a, substActor (c.withActor a) l = r) ∨
+    (∃ suf, ∀ a, substActor (c.withActor a) l = .ok (a ++ suf)) := by
+  cases l with
+  | nil => exact Or.inl ⟨_, fun _ => rfl⟩
+  | cons p rest =>
+    by_cases h : p = "me"
+    · exact Or.inr ⟨rest, fun a => by simp [substActor, h, Ctx.withActor]⟩
+    · exact Or.inl ⟨.ok (p :: rest), fun a => by simp [substActor, h]⟩
+
+
 end Ioflo.ResolvePath
